@@ -6,8 +6,8 @@
      lock   1: a sender is suspended holding the send lock (and the endpoint's guard)
      labels 0 complete | 1 OSError | 2 cancel | 3 timed scope expires
      second 1: when the first close is over, close again (same path) with the remaining labels
-   output = L [A res; L [leaf0; leaf1]; A outer_closing; A api_closing; A used; second]
-            second = L [] | L [A res2; A used2; L [leaf0; leaf1]]                                                     *)
+   output = L [A res; L [leaf0; leaf1]; A outer_closing; A api_closing; A used; second; L [fd0; fd1]]   (fd = descriptor released)
+            second = L [] | L [A res2; A used2; L [leaf0; leaf1]; L [fd0; fd1]]                                                     *)
 From Coq Require Import ZArith List Bool Arith.
 Import ListNotations.
 From EN Require Import Lib.Bytes Lib.Sx Conc.Close.
@@ -20,6 +20,8 @@ Fixpoint dec_base (fuel : nat) (x : sx) : option base :=
   | 0 => None
   | S f =>
       match x with
+      | L [A 0%Z; i; _; A 1%Z] => match as_nat i with Some i' => Some (BAdapter i' false) | None => None end
+      | L [A 0%Z; i; _; A 2%Z] => match as_nat i with Some i' => Some (BAdapter i' true) | None => None end
       | L (A 0%Z :: i :: m :: _) => match as_nat i, as_nat m with Some i', Some m' => Some (BLeaf i' m') | _, _ => None end
       | L [A 1%Z; s; r] => match dec_base f s, dec_base f r with Some s', Some r' => Some (BStapled s' r') | _, _ => None end
       | _ => None
@@ -50,6 +52,7 @@ Definition mk_path (code : Z) (t : tr) : option path :=
   end%Z.
 
 Definition flags (w : world) : sx := L [of_bool (w_leaf w 0); of_bool (w_leaf w 1)].
+Definition fds (b : base) (w : world) : sx := L [of_bool (fd_released b w 0); of_bool (fd_released b w 1)].
 
 Definition run (x : sx) : sx :=
   match x with
@@ -61,8 +64,9 @@ Definition run (x : sx) : sx :=
       let snd :=
         if Z.eqb second 1 then
           let '(r2, w2, _) := run_path p env0 w ls' in
-          L [A (res_code r2); of_nat (w_used w2 - w_used w); flags w2]
+          L [A (res_code r2); of_nat (w_used w2 - w_used w); flags w2; fds (tr_base (path_tr p)) w2]
         else L [] in
-      L [A (res_code r); flags w; of_bool (tr_closing (path_tr p) w); of_bool (w_api_closing w); of_nat (w_used w); snd]
+      L [A (res_code r); flags w; of_bool (tr_closing (path_tr p) w); of_bool (w_api_closing w); of_nat (w_used w); snd;
+         fds (tr_base (path_tr p)) w]
   | _ => bad_input
   end.
